@@ -30,7 +30,11 @@ SOURCES = {
            "cb/src/lib.rs": "#[typeshare]\npub struct C { pub v: Vec<()> }\n"},
     "v4": {"ca/src/lib.rs": "#[typeshare]\npub struct A { pub x: u32 }\n#[typeshare]\npub enum E { P, Q }\n",
            "cb/src/lib.rs": "#[typeshare]\npub struct B { pub y: String }\n#[typeshare]\npub type T = Vec<B>;\n",
-           "cc/src/deep/er.rs": "#[typeshare]\n#[serde(tag = \"t\", content = \"c\")]\npub enum G { N(u32), S { f: Option<()> } }\n"},
+           "cc/src/deep/er.rs": "#[typeshare]\n#[serde(tag = \"t\", content = \"c\")]\npub enum G { N(u32), S { f: Option<()> } }\n"
+                                # generic items with several parameter NAMES (whatever a backend collects per name - type variables,
+                                # imports - it writes in the same order in every process)
+                                "#[typeshare]\npub struct Page<Item, Cursor, Meta, Extra> { pub items: Vec<Item>, pub next: Option<Cursor>, pub meta: Meta, pub extra: Extra }\n"
+                                "#[typeshare]\npub struct Wrapped<Payload> { pub payload: Payload }\n"},
 }
 
 
